@@ -45,9 +45,34 @@ RULE = ("seeded trash worlds (a quarter with a stale directorysizes cache in the
         "of printable ASCII; differential: printed paths of a dry run vs paths removed by the real run on a copy")
 
 
+def overflow_world(rng):
+    """two trash directories named on the command line: the first holds only payloads without info (and an undated entry),
+    the second a dated entry; DAYS is so large that the first dated entry met makes the command die - after the first
+    directory has been dealt with, in the real run and in the announcements of the dry run alike"""
+    from ..model import W
+    from ..sandbox import MODEL_ROOT as R
+    w = W()
+    home = w.dir(R + b"/home/u")
+    a, b_ = R + b"/data/A", R + b"/data/B"
+    for t in (a, b_):
+        w.dir(t, 0o700)
+        w.dir(t + b"/files", 0o700)
+        w.dir(t + b"/info", 0o700)
+    w.file(a + b"/files/orphan", b"no info")
+    w.file(a + b"/files/orphan-dir/inner", b"no info either")
+    w.file(a + b"/info/undated.trashinfo", b"[Trash Info]\nPath=" + R + b"/w/undated\n", 0o600)
+    w.file(a + b"/files/undated", b"kept by DAYS")
+    w.file(b_ + b"/info/dated.trashinfo", b"[Trash Info]\nPath=" + R + b"/w/dated\nDeletionDate=2020-01-01T00:00:00\n", 0o600)
+    w.file(b_ + b"/files/dated", b"x")
+    opts = {"userDirs": [a, b_], "days": rng.choice([10 ** 9, 10 ** 9, 999999999, 800000]), "now": [2024, 3, 2, 12, 0, 0]}
+    world = w.world(env={"HOME": home, "TRASH_DATE": b"2024-03-02T12:00:00"}, uid=1000, cwd=R, cmd="empty", opts=opts, args=[], stdin=None,
+                    meta={"entries": [], "tdirs": [(a, None), (b_, None)], "profile": "overflow", "payload_kinds": []})
+    return world
+
+
 def dry_vs_real(task):
     rng = task_rng("C14d", task["seed"], task["i"])
-    world = gen_trash_world(rng, "empty", "mixed")
+    world = gen_trash_world(rng, "empty", "mixed") if task["i"] % 20 != 7 else overflow_world(rng)
     world["opts"].pop("interactive", None)
     world["stdin"] = None
     world["opts"]["dryRun"] = True
@@ -70,8 +95,10 @@ def dry_vs_real(task):
     w2["opts"] = dict(world["opts"], dryRun=False, verbose=0)
     w2["argv"] = cmd_argv(w2)
     real = run_world(w2, {})
-    if dry.get("exc") or real.get("exc"):
+    if (dry.get("exc") or None) != (real.get("exc") or None):
         return {"skip": True}
+    # (when both runs die the same way - DAYS out of range at the first dated entry of a later directory, say - what the
+    #  real run had removed until then is what the dry run must have announced until then)
     printed = [l[len(b"would remove "):] for l in dry["stdout"].split(b"\nwould remove ")]
     text = dry["stdout"]
     printed = []
